@@ -158,6 +158,11 @@ type State struct {
 	// matchAtNonWordBoundary is the same but for when word boundary is NOT satisfied.
 	matchAtNonWordBoundary bool
 
+	// eoiMatch caches checkEOIMatch: whether this state matches at the end of the
+	// input (valid once eoiChecked is set).
+	eoiMatch   bool
+	eoiChecked bool
+
 	// nfaStates is the set of NFA states this DFA state represents.
 	// This is used during determinization to compute transitions.
 	// Pre-allocated to avoid heap allocations during search.
